@@ -25,3 +25,10 @@ pub fn close_rel(a: f64, b: f64, rel: f64) -> bool {
     let m = if ma > mb { ma } else { mb };
     d <= rel * m
 }
+
+/// stub for `std::fmt::format`: error paths build their messages with `format!`; formatting is
+/// never the subject of a property. Returns a NON-empty string because some callers test the
+/// message for emptiness (`TerminationModel::explain_termination` of a combined model).
+pub fn stub_format(_args: std::fmt::Arguments<'_>) -> String {
+    String::from("x")
+}
